@@ -2,6 +2,7 @@
 Serialization functions for the "native" EDS format.
 """
 
+import re
 from pathlib import Path
 
 from delphin import variable
@@ -209,6 +210,8 @@ def _decode_node(start, lexer):
     predicate = lexer.expect_type(SYMBOL).lower()
     lnk = Lnk(lexer.accept_type(LNK))
     carg = lexer.accept_type(CARG)
+    if carg is not None:
+        carg = _unescape(carg)
     nodetype, properties = _decode_properties(start, lexer)
     edges = _decode_edges(start, lexer)
     return Node(start, predicate, nodetype, edges, properties, carg, lnk)
@@ -285,6 +288,14 @@ def _encode_eds(e, properties, lnk, show_status, indent):
     return start + delim.join(parts) + end
 
 
+def _escape(s):
+    return s.replace('\\', '\\\\').replace('"', '\\"')
+
+
+def _unescape(s):
+    return re.sub(r'\\(.)', r'\1', s)
+
+
 def _encode_node(node, properties, lnk):
     parts = [node.id, ':', node.predicate]
 
@@ -292,7 +303,7 @@ def _encode_node(node, properties, lnk):
         parts.append(str(node.lnk))
 
     if node.carg is not None:
-        parts.append('("{}")'.format(node.carg))
+        parts.append('("{}")'.format(_escape(node.carg)))
 
     if properties and (node.properties or node.type):
         parts.append('{')
